@@ -284,6 +284,24 @@ def calls_in(node: ast.AST, name: Optional[str] = None) -> List[ast.Call]:
     return out
 
 
+def closure_functions(fn: ast.AST, depth: int = 3) -> List[ast.AST]:
+    """`fn` and the methods of its class it reaches through `self.h(...)` calls (at most `depth` levels): the unit a rule inspects
+    when a search or an update may have been moved into a private helper."""
+    cls = enclosing_class(fn)
+    own = methods(cls) if cls is not None else {}
+    out = [fn]
+    frontier = [(fn, 0)]
+    while frontier:
+        f, d = frontier.pop()
+        if d >= depth:
+            continue
+        for c in calls_in(f):
+            if isinstance(c.func, ast.Attribute) and is_self_attr(c.func) and c.func.attr in own and own[c.func.attr] not in out:
+                out.append(own[c.func.attr])
+                frontier.append((own[c.func.attr], d + 1))
+    return out
+
+
 def reaching_calls(fn: ast.AST, name: str, depth: int = 3) -> List[ast.Call]:
     """Calls in `fn` that are calls of `name`, or calls of a method of the same class (`self.h(...)`) whose body reaches a call
     of `name` through at most `depth` such helpers: a search or an update moved into a private helper is still found at the site
